@@ -68,6 +68,10 @@ def e2e_program(rng, k):
     body.append("        (println a)")
     # a string result that comes back through the co-process is an ordinary string: equal to its original, usable in every
     # string operation; a NULL char* result is void on both paths
+    body.append("        set a (get_argc)")
+    body.append("        (println a)")
+    body.append("        set t (get_argv 0)")
+    body.append("        (println (str_length t))")
     body.append("        set t (strdup s)")
     body.append('        if (== t s) { (println "copy-eq") } else { (println "copy-ne") }')
     body.append('        if (== (+ t "x") (+ s "x")) { (println "cat-eq") } else { (println "cat-ne") }')
@@ -78,7 +82,7 @@ def e2e_program(rng, k):
     body.append("        (println t)")
     src = ("extern fn strlen(s: string) -> int\nextern fn labs(x: int) -> int\nextern fn getenv(name: string) -> string\n"
            "extern fn nl_cstr_index_of(s: string, sub: string) -> int\nextern fn toupper(c: int) -> int\nextern fn fabs(x: float) -> float\n"
-           "extern fn atoi(s: string) -> int\nextern fn strdup(s: string) -> string\nextern fn strstr(h: string, n: string) -> string\nextern fn strchr(s: string, c: int) -> string\nfn main() -> int {\n    let mut a: int = 0\n    let mut t: string = \"\"\n    let mut f: float = 0.0\n    unsafe {\n"
+           "extern fn atoi(s: string) -> int\nextern fn strdup(s: string) -> string\nextern fn get_argc() -> int\nextern fn get_argv(index: int) -> string\nextern fn strstr(h: string, n: string) -> string\nextern fn strchr(s: string, c: int) -> string\nfn main() -> int {\n    let mut a: int = 0\n    let mut t: string = \"\"\n    let mut f: float = 0.0\n    unsafe {\n"
            + "\n".join(body) + "\n    }\n    return %d\n}\nshadow main { assert (== 1 1) }\n" % rng.choice([0, 0, 3]))
     envval = "".join(rng.choice("abc xyz;#=") for _ in range(rng.choice([0, 1, 10, 300, 9000])))
     return name, src, envval
